@@ -29,7 +29,7 @@ type fdef struct {
 
 var goTypes = map[string]reflect.Type{
 	"int64": reflect.TypeOf(int64(0)), "int32": reflect.TypeOf(int32(0)), "uint": reflect.TypeOf(uint(0)), "string": reflect.TypeOf(""),
-	"bool": reflect.TypeOf(false), "float64": reflect.TypeOf(float64(0)), "bytes": reflect.TypeOf([]byte(nil)),
+	"bool": reflect.TypeOf(false), "float64": reflect.TypeOf(float64(0)), "float32": reflect.TypeOf(float32(0)), "bytes": reflect.TypeOf([]byte(nil)),
 	"time": reflect.TypeOf(time.Time{}), "pstring": reflect.TypeOf((*string)(nil)), "pint": reflect.TypeOf((*int64)(nil)),
 	"nullstring": reflect.TypeOf(sql.NullString{}), "deleted": reflect.TypeOf(gorm.DeletedAt{}),
 }
@@ -56,7 +56,7 @@ func structOf(fs []fdef) reflect.Type {
 	return reflect.StructOf(sf)
 }
 
-var typeNames = []string{"int64", "int32", "uint", "string", "bool", "float64", "bytes", "time", "pstring", "pint", "nullstring"}
+var typeNames = []string{"int64", "int32", "uint", "string", "bool", "float64", "float32", "bytes", "time", "pstring", "pint", "nullstring"}
 
 func randField(r *rand.Rand, i int, prefix string) fdef {
 	f := fdef{Name: fmt.Sprintf("%s%d", prefix, i), Col: fmt.Sprintf("%s_c%d", strings.ToLower(prefix), i), Type: typeNames[r.Intn(len(typeNames))]}
@@ -113,8 +113,20 @@ func randField(r *rand.Rand, i int, prefix string) fdef {
 		case 5:
 			f.Tags = append(f.Tags, "default:1")
 		}
-	case "float64":
+	case "float32":
+		// defaults that are not exactly representable in binary32
 		switch r.Intn(4) {
+		case 0:
+			f.Tags = append(f.Tags, "default:0.1")
+		case 1:
+			f.Tags = append(f.Tags, "default:3.14")
+		case 2:
+			f.Tags = append(f.Tags, "default:1.5")
+		}
+	case "float64":
+		switch r.Intn(5) {
+		case 3:
+			f.Tags = append(f.Tags, "default:0.35")
 		case 0:
 			f.Tags = append(f.Tags, "precision:10", "scale:2")
 		case 1:
@@ -260,7 +272,7 @@ func setVals(v reflect.Value, fs []fdef, k int) {
 			fv.SetString(fmt.Sprintf("s%d'%d", k, i))
 		case "bool":
 			fv.SetBool(k%2 == 0)
-		case "float64":
+		case "float64", "float32":
 			fv.SetFloat(float64(n) + 0.5)
 		case "bytes":
 			fv.SetBytes([]byte{byte(n), 0, 0xff})
@@ -325,7 +337,7 @@ func run(r *rand.Rand, caseNo int) (hx.M, error) {
 			}
 			f.Tags = keep
 		}
-		if hasDefault || f.Type == "bool" || f.Type == "int64" || f.Type == "int32" || f.Type == "uint" || f.Type == "string" || f.Type == "float64" || f.Type == "time" {
+		if hasDefault || f.Type == "bool" || f.Type == "int64" || f.Type == "int32" || f.Type == "uint" || f.Type == "string" || f.Type == "float64" || f.Type == "float32" || f.Type == "time" {
 			if f.Idx == "uniqueIndex" {
 				f.Idx = "index"
 			}
